@@ -51,7 +51,12 @@ func MultiScalarMulLowLevel[PP GroupElementPtrLowLevel[PP, P], P any](
 ) {
 	n := len(points)
 	if n == 0 {
-		panic("MultiScalarMul: no points")
+		if len(scalars) != 0 {
+			panic("MultiScalarMul: number of points and scalars must be equal")
+		}
+		// The empty sum is the identity.
+		PP(out).SetZero()
+		return
 	}
 	if n != len(scalars) {
 		panic("MultiScalarMul: number of points and scalars must be equal")
